@@ -61,6 +61,7 @@ def run(ck):
     includable_twice(ck)
     one_state_per_program(ck)
     unit_scoped_state(ck)
+    no_initialisation_order_dependence(ck)
 
 
 def text_agreement(ck):
@@ -493,3 +494,36 @@ def unit_scoped_state(ck):
                       "every type the user's file declares after `#include \"qtlogger.h\"` (a struct seen packed in one file and unpacked in another)" if k == "pack" else ""), key="unit-state|%s|%s" % (k, os.path.basename(p)))
     if not bad:
         ck.ob("C20-O8", "src/qtlogger (%d files)" % len(files), True, "no source file leaves a pragma push open, sets the packing bare, or has a using-directive at file scope", key="unit-state|none")
+
+
+# one named symbol, one reason: the reference instant of %{time process} has to be sampled when the program is loaded; the two configurations
+# differ only for a record formatted while static initialisation is still running, where both answers are wrong (time since boot / 0.000) - DESIGN section 7.7
+DYNAMIC_INIT_ALLOWED = {"g_processStartTime"}
+
+
+def no_initialisation_order_dependence(ck):
+    """C20-O9: the library initialises its namespace-scope objects translation unit by translation unit, in link order; the single header initialises
+    them in the middle of whichever user source includes it. A namespace-scope object with DYNAMIC initialisation (environment read at start-up, a
+    registrar object such as Q_COREAPP_STARTUP_FUNCTION, a table filled by a constructor) therefore has a different value - or runs a different
+    number of times: once per including source file - in the two configurations whenever something observes it before main()."""
+    F = ck.facts
+    ck.rule("C20-O9", "every namespace-scope object of the library is constant-initialised (no start-up code whose order or multiplicity differs between the library and the single header)")
+    n, bad = 0, []
+    for g in F.globals.values():
+        if not isinstance(g, dict) or g.get("staticlocal") or not in_lib_file(g.get("file") or ""):
+            continue
+        n += 1
+        if g.get("constinit") is False and (g.get("name") or "").split("::")[-1] not in DYNAMIC_INIT_ALLOWED:
+            bad.append(g)
+    for g in bad[:4]:
+        ck.ob("C20-O9", "%s:%s (%s)" % ((g.get("file") or "").split("/src/")[-1], g.get("line"), (g.get("name") or "").split("::")[-1]), False,
+              "%s is a namespace-scope object with dynamic initialisation: in the library it is set up when its translation unit is, in the single header wherever (and as often as) a user's source file "
+              "includes qtlogger.h - code that runs before main(), or a registrar that must run once per program, behaves differently in the two distributions" % (g.get("name") or "?"),
+              key="dynamic-init|%s" % (g.get("name") or "").split("::")[-1])
+    ck.require(n >= 4, "only %d namespace-scope objects found in the library sources (the active logger, the displaced handler, the pattern constants were confirmed by hand)" % n)
+    if not bad:
+        ck.ob("C20-O9", "src/qtlogger", True, "%d namespace-scope objects in the library sources, all constant-initialised (allow-listed with a reason: %s)" % (n, sorted(DYNAMIC_INIT_ALLOWED)), key="dynamic-init|none")
+
+
+def in_lib_file(p):
+    return "/src/qtlogger/" in p and not p.endswith("/src/qtlogger/qtlogger.h")
